@@ -107,11 +107,21 @@ def define(s, case, dims, vs, k=1, info=None):
         n["dims"].append(s.op("def_dim", step=True, f="f0", name=hx(nm), len=l))
     for nm, xt, ids, _r, _s in vs:
         n["vars"].append(s.op("def_var", step=True, f="f0", name=hx(nm), xt=xt, dims=ids, ndims=len(ids)))
-    if case.get("exact"):
-        n["enddef"] = s.op("_enddef", step=True, f="f0", h_minfree=0, v_align=4, v_minfree=0, r_align=4)
+    if case.get("exact") or case.get("hfree"):
+        n["enddef"] = s.op("_enddef", step=True, f="f0", h_minfree=case.get("hfree", 0), v_align=4, v_minfree=0, r_align=4)
     else:
         n["enddef"] = s.op("enddef", step=True, f="f0")
     return n
+
+
+def extent_band(case, hsize):
+    """[lo, hi] the header extent must lie in: pinned by ncmpi__enddef(0,4,0,4); "at least" h_minfree bytes of free space
+    when h_minfree is given; anything from the header size up to one alignment unit more with plain ncmpi_enddef"""
+    hf = case.get("hfree", 0)
+    lo = LM.pad4(hsize + hf)
+    if case.get("exact") and not hf:
+        return lo, lo
+    return lo, lo + 4096
 
 
 def read_header(d, nbytes):
@@ -192,7 +202,7 @@ def build_rule(case):
 
 
 def describe_def(case, vs):
-    return "CDF-%d %s [%s]" % (case["fmt"], "ncmpi__enddef(0,4,0,4)" if case.get("exact") else "ncmpi_enddef",
+    return "CDF-%d %s [%s]" % (case["fmt"], ("ncmpi__enddef(%d,4,0,4)" % case.get("hfree", 0)) if (case.get("exact") or case.get("hfree")) else "ncmpi_enddef",
                                 ", ".join("%s %s%s = %d bytes%s" % ("record" if r else "fixed", cdfspec.TYPE_NAME[xt],
                                                                     list(case["vars"][i]["lens"]), S, "/record" if r else "")
                                           for i, (_n, xt, _ids, r, S) in enumerate(vs)))
@@ -220,11 +230,11 @@ def run_rule(ctx, case):
                 defined.append(vs[i])
             elif S > LM.L5:
                 ctx.count("rule_defvar_refused_beyond_63bit")
-        lo = header_size(fmt, dims, defined)
-        hi = lo if case.get("exact") else lo + 4096
+        hsize = header_size(fmt, dims, defined)
+        lo, hi = extent_band(case, hsize)
         v = LM.enddef_rule(fmt, [(r, S) for _n, _x, _i, r, S in defined], lo, hi)
         rc = res.rc(n["enddef"])
-        ctx.count("rule_fmt%d" % fmt, "rule_%s" % v.kind, "rule_nvars_%d" % len(vs), "rule_%s" % ("pinned_extent" if case.get("exact") else "default_extent"))
+        ctx.count("rule_fmt%d" % fmt, "rule_%s" % v.kind, "rule_nvars_%d" % len(vs), "rule_%s" % ("h_minfree" if case.get("hfree") else "pinned_extent" if case.get("exact") else "default_extent"))
         for m in set(v.marks):
             ctx.count("mark_" + m)
         if v.kind == LM.OPEN:
@@ -238,7 +248,7 @@ def run_rule(ctx, case):
             if crc != 0:
                 P.append(prob("close_rc", "%s: close after an accepted enddef returned %s" % (describe_def(case, vs), crc), fmt=fmt))
             if not any(m in ("open_offset_overflow", "open_beyond_63bit") for m in v.marks):     # offsets not representable: nothing to check
-                P += check_header(case, read_header(d, lo + 64), dims, defined, lo, describe_def(case, vs))
+                P += check_header(case, read_header(d, hsize + 64), dims, defined, hsize, describe_def(case, vs))
         if nt:
             ctx.nontrivial(runner.case_hash(case))
         ctx.sample({"case": case, "verdict": repr(v), "script": s.lines}, limit=2)
@@ -272,10 +282,17 @@ def check_header(case, raw, dims, defined, hsize, what):
     begins = [x.begin for x in hdr.vars]
     if fmt == 1 and any(b > LM.BEGIN_MAX_CDF1 for b in begins):
         P.append(prob("begin", "%s: CDF-1 begin offsets %s exceed 2^31-1" % (what, begins), fmt=fmt))
-    if case.get("exact"):
-        want_b = LM.layout([(r, S) for _n, _x, _i, r, S in defined], LM.pad4(hsize))[0]
-        if begins != want_b:
-            P.append(prob("begin", "%s: begins %s, the packed layout behind a %d byte header is %s" % (what, begins, hsize, want_b), fmt=fmt))
+    if (case.get("exact") or case.get("hfree")) and begins:
+        lo, hi = extent_band(case, hsize)
+        b0 = min(begins)
+        if not (lo <= b0 <= hi) and hi == lo:
+            P.append(prob("begin", "%s: the data section begins at %d, header size %d rounded up to 4 is %d" % (what, b0, hsize, lo), fmt=fmt))
+        elif b0 < lo:
+            P.append(prob("begin", "%s: the data section begins at %d, less than header size %d + h_minfree %d" % (what, b0, hsize, case.get("hfree", 0)), fmt=fmt))
+        else:
+            want_b = LM.layout([(r, S) for _n, _x, _i, r, S in defined], b0)[0]
+            if begins != want_b:
+                P.append(prob("begin", "%s: begins %s, the packed layout from offset %d is %s" % (what, begins, b0, want_b), fmt=fmt))
     return P
 
 
@@ -310,6 +327,8 @@ def shapes_for(S, fmt):
             continue
         if n <= dmax:
             out.append((xt, [n]))
+        if n == 1:
+            out.append((xt, []))            # scalar (or a record variable with the record dimension only)
         for a in (2, 3, 4, 8, 1024):
             if n % a == 0 and 1 < n // a <= dmax:
                 out.append((xt, [a, n // a]))
@@ -383,6 +402,24 @@ def offset_target_cases():
     return out
 
 
+def hfree_cases():
+    """definitions whose data section is pushed to (about) a threshold offset by the h_minfree argument of ncmpi__enddef"""
+    out = []
+    for fmt in (1, 2, 5):
+        for nv in (1, 2, 3):
+            for kinds in itertools.product((0, 1), repeat=nv):
+                order = [i for i in range(nv) if not kinds[i]] + [i for i in range(nv) if kinds[i]]
+                for T in ((T31 - 8192, T31 - 4100, T31 - 4, T31, T31 + 4) if fmt == 1 else (T31, T32 - 4, T32, 2 * T32 + 4)):
+                    for lastsize in (4, 10, LM.L1 + 4, 5 * 10 ** 9):
+                        var = [{"rec": kinds[i], "xt": (4, 3, 1)[(i + nv) % 3], "lens": [1 + (i + nv) % 3]} for i in range(nv)]
+                        var[order[-1]] = var_of(lastsize, fmt, kinds[order[-1]], nv + T % 7)
+                        case = {"kind": "rule", "fmt": fmt, "exact": 1, "vars": var}
+                        dims, vs = schema(case)
+                        case["hfree"] = T - header_size(fmt, dims, vs)
+                        out.append(case)
+    return out
+
+
 def enumerate_rules(tier, seed):
     """the rule-table cases of a tier in a fixed order (quick: the complete 1- and 2-variable tables for CDF-1/2 plus
     seed-dependent samples of the rest; thorough: the complete products)"""
@@ -414,12 +451,12 @@ def enumerate_rules(tier, seed):
         for c in full:
             add(fmt, [c], 0)
             add(fmt, [c], 1)
-        for c in sample(itertools.product(full, repeat=2), len(full) ** 2, 300 if (quick and fmt == 5) else 0):
+        for c in sample(itertools.product(full, repeat=2), len(full) ** 2, 0):
             add(fmt, list(c))
         if quick:
-            for c in sample(itertools.product(red, repeat=3), len(red) ** 3, 150 if fmt != 5 else 40):
+            for c in sample(itertools.product(red, repeat=3), len(red) ** 3, 1200 if fmt != 5 else 300):
                 add(fmt, list(c))
-            for c in sample(itertools.product(red, repeat=4), len(red) ** 4, 100 if fmt != 5 else 30):
+            for c in sample(itertools.product(red, repeat=4), len(red) ** 4, 800 if fmt != 5 else 200):
                 add(fmt, list(c))
         else:
             m3 = full if fmt != 5 else red
@@ -437,8 +474,9 @@ def enumerate_rules(tier, seed):
             cases.append({"kind": "rule", "fmt": 5, "exact": 0, "vars": [dict(b, rec=rec), dict(big[(i + 3) % len(big)], rec=1 - rec)]})
     # CDF-1: begin offsets exactly around 2^31
     ot = offset_target_cases()
-    for c in sample(ot, len(ot), 350 if quick else 0):
+    for c in sample(ot, len(ot), 0):
         cases.append(c)
+    cases += hfree_cases()
     return cases
 
 
@@ -513,8 +551,36 @@ ADDR_DEFS = [
     ("c5_rec_big_inner_second", 5, [_v(1, 1, 5 * 10 ** 9), _v(1, 4, 2)], 1, 3),
     ("c2_fixed_5g_then_record", 2, [_v(0, 4, 6 * 10 ** 8), _v(0, 4, 6 * 10 ** 8), _v(1, 4, 7)], 2, 1000),
     ("c5_fixed_5g_then_record", 5, [_v(0, 1, 5 * 10 ** 9), _v(1, 3, 7), _v(1, 1, 1)], 1, 2 * 10 ** 8),
+    # small variables behind a header extent of 2, 4 or 8 GiB (h_minfree): every element lies above the threshold
+    ("c2_hfree_4g_fixed", 2, [_v(0, 4, 10), _v(1, 3, 3), _v(0, 1, 7, 5)], 2, 1000, T32 + 8),
+    ("c2_hfree_4g_record", 2, [_v(0, 4, 10), _v(1, 3, 3), _v(1, 1, 5)], 1, 10 ** 6, T32 - 200),
+    ("c5_hfree_8g_fixed", 5, [_v(0, 10, 4, 3), _v(0, 4)], 0, 0, 2 * T32),
+    ("c5_hfree_8g_scalar", 5, [_v(0, 10, 4, 3), _v(0, 4), _v(1, 6)], 1, 0, 2 * T32 + 4),
+    ("c5_hfree_8g_record", 5, [_v(0, 10, 4, 3), _v(0, 4), _v(1, 6)], 2, 10 ** 9, 2 * T32 + 4),
+    ("c1_hfree_near_2g_last_big", 1, [_v(0, 3, 5), _v(0, 4, 3, 10 ** 9)], 1, 0, T31 - 10000),
+    ("c1_hfree_near_2g_records", 1, [_v(0, 3, 5), _v(1, 4, 3), _v(1, 1, 2, 10 ** 9)], 2, 3, T31 - 10000),
 ]
 FORMS = ["var1", "vara", "vars", "varn"]
+NC_MAX_INT = 2 ** 31 - 1
+NC_EINTOVERFLOW = -221
+
+# Generator switches for confirmed, still unfixed defects: True = cases that run into the defect are left out by
+# construction (counted as excluded_<name>); the defect itself is kept as a replay in replays/C18.
+SWITCHES = {
+    # ncmpio_filetype.c:ncmpio_file_set_view(): without MPI large-count support rank 0 prepends the header extent to every
+    # non-contiguous file view as ONE block of (int)begin_var bytes and gives up with NC_EINTOVERFLOW when the header extent
+    # (ncmpi__enddef h_minfree, or a huge header) exceeds 2^31-1: every request that is not contiguous in the file, and
+    # every varn / nonblocking request, then fails on rank 0 although the definition was accepted.
+    # replays/C18/header-extent-above-2g-*.json.  With the switch on, definitions whose data section starts above 2^31-1
+    # are only accessed through blocking var1 / single-row vara requests (contiguous in the file).
+    "header_extent_above_2g": not os.environ.get("VERIF_C18_NOEXCLUDE"),      # the variable re-enables the excluded cases (after a fix)
+}
+
+
+def big_extent(case):
+    """the definition's data section certainly starts above 2^31-1"""
+    dims, vs = schema(case)
+    return extent_band(case, header_size(case["fmt"], dims, vs))[0] > NC_MAX_INT
 
 
 class Picker:
@@ -537,11 +603,11 @@ class Geo:
     """geometry of the target variable under a predicted layout (only used to choose interesting positions; the
     oracle works from the header found in the file)"""
 
-    def __init__(self, fmt, vars_, tv, reccap, exact):
+    def __init__(self, fmt, vars_, tv, reccap, exact, hfree=0):
         case = {"fmt": fmt, "vars": vars_}
         dims, vs = schema(case)
         H = header_size(fmt, dims, vs)
-        ext = LM.pad4(H) if exact else -(-H // 512) * 512
+        ext = LM.pad4(H + hfree) if (exact or hfree) else -(-H // 512) * 512
         begins, recsize, _br, _end = LM.layout([(r, S) for _n, _x, _i, r, S in vs], ext)
         v = vars_[tv]
         self.rec = bool(v["rec"])
@@ -627,7 +693,7 @@ def req_elems(rq):
     return out
 
 
-def make_box(g, a, pk, strided):
+def make_box(g, a, pk, strided, row_only=False):
     """a small box (start, count, stride) containing anchor `a`, inside the variable's shape"""
     nd = len(g.shape)
     start, count, stride = [], [], []
@@ -635,6 +701,8 @@ def make_box(g, a, pk, strided):
         L = g.shape[d]
         last = d == nd - 1
         c = 1 + pk.pick(4) if last else (1 + (pk.pick(4) == 0) + (pk.pick(12) == 0))
+        if row_only and not last:
+            c = 1
         c = min(c, L)
         sd = 1
         if strided and c > 1:
@@ -651,7 +719,13 @@ def make_box(g, a, pk, strided):
     return start, count, stride
 
 
-def make_request(g, form, anchors, pk):
+def make_request(g, form, anchors, pk, row_only=False):
+    if row_only:
+        a = anchors[pk.pick(len(anchors))][1]
+        if form in ("var1", "varn") or not g.shape:
+            return {"form": "var1", "start": list(a)}
+        s, c, _sd = make_box(g, a, pk, False, True)
+        return {"form": "vara", "start": s, "count": c}
     if form == "varn":
         n = 2 + pk.pick(3)
         starts, counts, seen = [], [], set()
@@ -694,13 +768,19 @@ def mirror(rq, pk):
 
 
 def make_addr_case(di, pk, k=None, exact=None):
-    name, fmt, vars_, tv, reccap = ADDR_DEFS[di]
+    name, fmt, vars_, tv, reccap = ADDR_DEFS[di][:5]
+    hfree = ADDR_DEFS[di][5] if len(ADDR_DEFS[di]) > 5 else 0
     k = (1 + pk.pick(2)) if k is None else k
     exact = pk.pick(2) if exact is None else exact
-    g = Geo(fmt, vars_, tv, reccap, exact)
+    g = Geo(fmt, vars_, tv, reccap, exact, hfree)
     anchors = g.anchors()
     wmode = {"coll": pk.pick(2), "nb": pk.pick(2)}
     rmode = {"coll": pk.pick(2), "nb": pk.pick(2)}
+    if not g.shape and k > 1:
+        wmode["coll"] = rmode["coll"] = 0       # a scalar has no zero-length request a peer could make in a collective call
+    simple = bool(SWITCHES["header_extent_above_2g"] and big_extent({"fmt": fmt, "vars": vars_, "exact": exact, "hfree": hfree}))
+    if simple:
+        wmode["nb"] = rmode["nb"] = 0
     nreq = 1 + pk.pick(3)
     forms = [FORMS[pk.pick(4)] for _ in range(nreq)]
     taken = set()
@@ -710,7 +790,7 @@ def make_addr_case(di, pk, k=None, exact=None):
         for i in range(nreq):
             rq = None
             for _try in range(4):
-                c = make_request(g, forms[i], anchors, pk)
+                c = make_request(g, forms[i], anchors, pk, simple)
                 el = req_elems(c)
                 if el and len(set(el)) == len(el) and not (set(el) & taken):
                     rq = c
@@ -724,13 +804,16 @@ def make_addr_case(di, pk, k=None, exact=None):
     for r in range(k):
         src = writes[str((r + 1) % k if swap else r)]
         lst = [None if rq is None else mirror(rq, pk) for rq in src]
-        if rmode["coll"] and not rmode["nb"]:
+        if simple or (rmode["coll"] and not rmode["nb"]):
             for i, rq in enumerate(lst):          # one API function per collective call: keep the form of the write
                 if rq is not None:
                     lst[i] = dict(src[i])
         reads[str(r)] = lst
-    return {"kind": "addr", "name": name, "fmt": fmt, "k": k, "exact": exact, "ds": int(pk.pick(4) == 0), "vars": vars_, "tv": tv,
-            "wmode": wmode, "rmode": rmode, "swap": swap, "writes": writes, "reads": reads, "salt": pk.pick(100)}
+    case = {"kind": "addr", "name": name, "fmt": fmt, "k": k, "exact": exact, "hfree": hfree, "ds": int(pk.pick(4) == 0), "vars": vars_, "tv": tv,
+            "wmode": wmode, "rmode": rmode, "swap": swap, "writes": writes, "reads": reads, "salt": pk.pick(100), "reopen": pk.pick(2)}
+    if simple:
+        case["restricted"] = "header_extent_above_2g"
+    return case
 
 
 def value_byte(salt, r, i, j):
@@ -857,7 +940,13 @@ def build_addr(case):
             plan["setup"].append(s.op("end_indep", step=True, f="f0"))
 
     phase(True, case["wmode"], case["writes"])
-    plan["setup"].append(s.op("fence", step=True, f="f0"))
+    if case.get("reopen"):
+        # read through a handle that learned the layout from the file header (saturated vsize, 64-bit begins)
+        plan["setup"].append(s.op("close", step=True, f="f0"))
+        kw = {} if case.get("ds") else {"info": "i1"}
+        plan["setup"].append(s.op("open", step=True, f="f0", path=hx("t.nc"), mode=0, **kw))
+    else:
+        plan["setup"].append(s.op("fence", step=True, f="f0"))
     phase(False, case["rmode"], case["reads"])
     plan["setup"].append(s.op("close", step=True, f="f0"))
     return s, plan
@@ -872,7 +961,7 @@ def run_addr(ctx, case):
         case.get("name", "?"), fmt, k, "pinned extent" if case.get("exact") else "default extent",
         "collective" if case["wmode"]["coll"] else "independent", "iput+wait" if case["wmode"]["nb"] else "blocking",
         "collective" if case["rmode"]["coll"] else "independent", "iget+wait" if case["rmode"]["nb"] else "blocking",
-        ", peer reads" if case.get("swap") else "")
+        (", peer reads" if case.get("swap") else "") + (", read after close+reopen" if case.get("reopen") else ""))
     pool = ctx.pool("plain", nprocs=1 if k == 1 else 2)
     res, d = pool.run(s, keepdir=True, timeout=60)
     try:
@@ -884,7 +973,7 @@ def run_addr(ctx, case):
                 if res.rc(j, r) != 0:
                     raise HarnessTrouble("definition statement %d returned %s" % (j, res.rc(j, r)))
         H = header_size(fmt, dims, vs)
-        v = LM.enddef_rule(fmt, [(r_, S) for _n, _x, _i, r_, S in vs], H, H if case.get("exact") else H + 4096)
+        v = LM.enddef_rule(fmt, [(r_, S) for _n, _x, _i, r_, S in vs], *extent_band(case, H))
         if v.kind != LM.ACCEPT:
             raise HarnessTrouble("the addressing definition is not an accepted one per limits: %r" % v)
         rcs = [res.rc(n["enddef"], r) for r in range(k)]
@@ -906,6 +995,11 @@ def run_addr(ctx, case):
             e = res.get(w["n"], w["r"])
             if e is None or e.get("rc") != 0 or any(x != 0 for x in (e.get("st") or [])):
                 P.append(prob("wait_rc", "%s: rank %d wait returned %s statuses %s" % (what, w["r"], None if e is None else e.get("rc"), None if e is None else e.get("st")), fmt=fmt))
+        if P:
+            if big_extent(case) and any(p["sig"].get("rc") == NC_EINTOVERFLOW or p["kind"] == "wait_rc" for p in P):
+                for p in P:
+                    p["sig"]["pattern"] = "header_extent_above_2g"
+            return P                # what follows would only be consequences
         model = plan["model"]
         # ---- (1) read back through the API
         if not P:
@@ -956,7 +1050,9 @@ def run_addr(ctx, case):
             os.close(fd)
         if isrec and not P and hdr.numrecs != top + 1:
             P.append(prob("numrecs", "%s: header numrecs %s after writing record %d" % (what, hdr.numrecs, top), fmt=fmt))
-        ctx.count("addr_cases", "addr_fmt%d" % fmt, "addr_k%d" % k, "addr_def_%s" % case.get("name", "?"),
+        if case.get("restricted"):
+            ctx.count("excluded_" + case["restricted"])
+        ctx.count("addr_cases", "addr_read_after_reopen" if case.get("reopen") else "addr_read_same_handle", "addr_fmt%d" % fmt, "addr_k%d" % k, "addr_def_%s" % case.get("name", "?"),
                   "addr_write_%s_%s" % ("coll" if case["wmode"]["coll"] else "indep", "nb" if case["wmode"]["nb"] else "blocking"),
                   "addr_read_%s_%s" % ("coll" if case["rmode"]["coll"] else "indep", "nb" if case["rmode"]["nb"] else "blocking"))
         for ent in plan["puts"]:
@@ -1002,7 +1098,7 @@ def _mix(*xs):
 def enumerate_addr(tier, seed):
     """(definition, k, picker integers) triples in a fixed order"""
     out = []
-    per = 2 if tier != "thorough" else 40
+    per = 12 if tier != "thorough" else 150
     for di in range(len(ADDR_DEFS)):
         for j in range(per):
             out.append((di, 1 + (di + j) % 2, _mix(seed, di, j)))
@@ -1083,7 +1179,7 @@ def campaign(ctx):
     for i, case in enumerate(rules):
         if i % ctx.nworkers != ctx.widx:
             continue
-        if nfail >= 3:
+        if nfail >= 1:
             ctx.notes.append("worker %d stopped the rule-table enumeration after %d failing definitions" % (ctx.widx, nfail))
             ctx.stats["enum_aborted"] += 1
             break
@@ -1094,12 +1190,14 @@ def campaign(ctx):
     for i, (di, k, ints) in enumerate(enumerate_addr(ctx.tier, ctx.seed)):
         if i % ctx.nworkers != ctx.widx:
             continue
-        if nfail >= 2:
+        if nfail >= 1:
             break
         one(make_addr_case(di, Picker(ints), k=k), "addr")
-    n = {"quick": 6, "thorough": 110}[ctx.tier]
+    if ctx.failures:
+        return              # the verdict is already red; triage of more failures only costs time
+    n = {"quick": 25, "thorough": 300}[ctx.tier]
     runner.run_hypothesis(ctx, rand_addr(), run_guard_trouble(run), n, label="addr")
-    n = {"quick": 25, "thorough": 600}[ctx.tier]
+    n = {"quick": 60, "thorough": 1000}[ctx.tier]
     runner.run_hypothesis(ctx, rand_rule(), run_guard_trouble(run), n, label="rule")
 
 
@@ -1125,6 +1223,8 @@ def coverage_extra(stats, tier):
                            "cases_with_index_above_2^31": stats.get("addr_index_above_2^31", 0),
                            "disk_KiB_allocated_by_all_sparse_files": stats.get("addr_allocated_kib_total", 0),
                            "apparent_MiB_of_all_sparse_files": stats.get("addr_apparent_mib_total", 0)},
+            "generator_switches": dict(SWITCHES),
+            "excluded": {k: v for k, v in stats.items() if k.startswith("excluded_")},
             "enumerated_domain": "quick: all 1- and 2-variable definitions over the full size menu for CDF-1/2 (CDF-5 sampled), seed-dependent samples "
                                  "of the 3- and 4-variable products, all CDF-5 63-bit cases, a sample of the CDF-1 begin-offset targets, all def_dim "
                                  "lengths; thorough: the full 1-3 variable products over the full menu, the 4-variable product over the reduced "
